@@ -178,7 +178,7 @@ def roster(consts, ids, extra=None):
     return out
 
 
-def build_wows(v, rng, join=True, battle_end=True, map_name='spaces/16_OC_bees_to_honey', n_players=3, roster_extra=None, recreate=False, dumps=None, extreme=False, reuse=False, twins=False, special_floats=False):
+def build_wows(v, rng, join=True, battle_end=True, map_name='spaces/16_OC_bees_to_honey', n_players=3, roster_extra=None, recreate=False, dumps=None, extreme=False, reuse=False, twins=False, special_floats=False, control_points=0):
     """-> (Battle, version string for the open block).  v: a directory name under clients/wows/versions"""
     ver = v.split('_'); new = tuple(map(int, ver[:3])) >= (12, 6, 0)
     d = os.path.join(common.REPO, 'replay_unpack', 'clients', 'wows', 'versions', v)
@@ -234,6 +234,9 @@ def build_wows(v, rng, join=True, battle_end=True, map_name='spaces/16_OC_bees_t
         for key in ('tasks', 'controlPoints', 'missions'):
             ft = field_type(t, [key])
             if ft is not None and strip_user(ft)[0] == 'array': set_path(val, [key], [])
+        cpt = field_type(t, ['controlPoints'])
+        if control_points and cpt is not None and strip_user(cpt)[0] == 'array' and strip_user(strip_user(cpt)[1])[0] == 'dict':
+            set_path(val, ['controlPoints'], [default_value(strip_user(strip_user(cpt)[1]), rng) for _ in range(control_points)])
         return val
     blnames = [p[0] for p in b.md.ent['BattleLogic']['client']]
     vals = [('state', state)] if 'state' in blnames else []
@@ -249,6 +252,18 @@ def build_wows(v, rng, join=True, battle_end=True, map_name='spaces/16_OC_bees_t
             bits = synth.pack_bits([(1, 1), (blnames.index('state'), synth.bits_required(len(blnames))), (1, 1),
                                     (fields.index('controlPoints'), synth.bits_required(len(fields))), (0, 1)])
             b.pkt('NestedProperty', struct.pack('<IbB', BL, 1, len(bits)) + bytes(3) + bits)
+    if control_points and 'state' in blnames and 'NestedProperty' in b.ids:
+        st_t = dict(b.md.ent['BattleLogic']['client'])['state']; cp_t = field_type(st_t, ['controlPoints'])
+        if cp_t is not None and strip_user(cp_t)[0] == 'array' and strip_user(strip_user(cp_t)[1])[0] == 'dict':
+            rec_t = strip_user(strip_user(cp_t)[1]); sfields = [n for n, _ in strip_user(st_t)[1]]
+            def cp_update(idx, fname, value):
+                """frame payload of: BattleLogic.state.controlPoints[idx].<fname> = value (an integer member)"""
+                names_ = [n for n, _ in rec_t[1]]; ft_ = dict(rec_t[1])[fname]
+                bits_ = synth.pack_bits([(1, 1), (blnames.index('state'), synth.bits_required(len(blnames))), (1, 1), (sfields.index('controlPoints'), synth.bits_required(len(sfields))),
+                                         (1, 1), (idx, synth.bits_required(control_points)), (0, 1), (names_.index(fname), synth.bits_required(len(names_)))])
+                pl_ = bits_ + gen_types.wire_of(ft_, value)
+                return struct.pack('<IbB', BL, 0, len(pl_)) + bytes(3) + pl_
+            b.cp_update = cp_update; b.cp_int_fields = [n for n, x in rec_t[1] if strip_user(x)[0] in 'ui']; b.battle_logic_id = BL
     vnames = [p[0] for p in b.md.ent['Vehicle']['client']]
     def crew(t, val):
         if val is None: val = default_value(('dict', strip_user(t)[1], False), rng)
